@@ -2,7 +2,7 @@
    hypotheses of the theorems hold and the verdicts are the expected ones. *)
 From Coq Require Import ZArith QArith List String Ascii Bool NArith.
 From GSP Require Import Base.Prelude Schema.Json Schema.Regex Schema.Model Schema.Spec
-  Schema.ThRegex Schema.ThJson Schema.Theory Schema.Decide.
+  Schema.ThRegex Schema.ThJson Schema.Theory Schema.Decide Schema.Fuel Schema.Complete.
 Import ListNotations.
 Open Scope list_scope.
 Open Scope string_scope.
@@ -81,6 +81,30 @@ Example ex_fuel_too_small :
   validate (c_env ex_compiled) 1 (c_root ex_compiled) inst_ok = None /\
   validate (c_env ex_compiled) 2 (c_root ex_compiled) inst_ok = Some true.
 Proof. split; vm_compute; reflexivity. Qed.
+
+(* a schema with a chain of two $refs is bounded by fuel 2 (not by 1), so validate is
+   a total two-valued decision on it; the recursive example above is not bounded *)
+Definition ex_chain : json :=
+  JObj [("properties", JObj [("a", JObj [("$ref", JStr "#/$defs/x")])]);
+        ("$defs", JObj [("x", JObj [("$ref", JStr "#/$defs/y")]);
+                        ("y", JObj [("type", JStr "integer"); ("multipleOf", JNum (3 # 2))])])].
+Definition ex_chain_c : compiled :=
+  match compile_root ex_chain with Ok c => c | _ => {| c_draft := D7; c_root := SFalse; c_env := [] |} end.
+Example ex_chain_compiles : compile_root ex_chain = Ok ex_chain_c.
+Proof. vm_compute. reflexivity. Qed.
+Example ex_chain_bounded :
+  ref_bounded (c_env ex_chain_c) 2 (c_root ex_chain_c) = true /\
+  ref_bounded (c_env ex_chain_c) 1 (c_root ex_chain_c) = false /\
+  ref_bounded (c_env ex_compiled) default_fuel (c_root ex_compiled) = false.
+Proof. repeat split; vm_compute; reflexivity. Qed.
+Example ex_chain_decided :
+  Valid (c_env ex_chain_c) (c_root ex_chain_c) (JObj [("a", qz 3)]) /\
+  ~ Valid (c_env ex_chain_c) (c_root ex_chain_c) (JObj [("a", qz 4)]).
+Proof.
+  split.
+  - apply (proj1 (bounded_decides _ 2 _ _ (proj1 ex_chain_bounded))). vm_compute. reflexivity.
+  - apply (proj2 (bounded_decides _ 2 _ _ (proj1 ex_chain_bounded))). vm_compute. reflexivity.
+Qed.
 
 (* removing "$metadata" changes nothing (instance of unknown_member_irrelevant) *)
 Example ex_metadata_ignored :
